@@ -24,6 +24,8 @@ RULE = ('values = the listed alphabet of built-in/exotic/hostile values (no __di
         'k = 1..3 snapshot tracepoints on the event; plus all graphs of the C05 family with k=2,3; every case is non-trivial when the '
         'value is not a plain scalar or k>1'
         ' ; values also: raising __getattribute__, dead weakref.proxy, Exceptions with non-tuple / raising args, Mock(spec=...), application classes named like containers, a value whose rendering takes 150 ms of the harness clock; the hostile classes again with methods raising a BaseException that is no Exception (halt_*); dictionary keys whose hash changed / raises / whose __class__ raises / that claim to be str, classes whose metaclass hides or falsifies __name__, __str__ returning an unsliceable str subclass, a lazy __dict__ mapping')
+RULE_ADDED = 'rounds 3-5: halt_* (BaseException-raising dunders); hostile dictionary keys and metaclasses; site raised-by-watch x 8 exception values (frozen dataclass exception, an exception answering every attribute with itself); caller frame with a minimal namespace mapping'
+RULE = RULE + ' ; ' + RULE_ADDED
 ASSUMPTIONS = [               'the placeholder text for an offending value is a don\'t-care; it must have an entry and the snapshot must be delivered']
 
 
